@@ -1,12 +1,645 @@
-//! C20 — not built yet.
-use crate::runner::{Outcome, Summary};
-use crate::Ctx;
-use serde_json::Value;
+//! C20 — gate-sequence expansion substitutes correctly and keeps needed definitions.
+//! (Shared code of the group C20 / C21: abstraction function for spec/GateSequence.tla, program
+//! construction through the public constructors, the two entry points, source-map export, the
+//! seeded generator of larger families.)
+//!
+//! replay: TLC cases {defs, filter, body, res} from spec/mc/MC_GateSequence.tla are executed on
+//!         `Program::expand_defgate_sequences(filter)`; body, kept `gate_definitions` keys and the error
+//!         category are compared with the model's.
+//! drive:  seeded random definition tables (up to 5 sequence definitions with up to 2 parameters and
+//!         3 formal qubits, bodies of up to 3 elements, plus a matrix definition), random filters and
+//!         bodies of up to 6 instructions — beyond the exhaustive bound; events reset/result/info go to
+//!         spec/trace/GateSequenceTrace.tla, where TLC evaluates the declarative expansion, the keep-set
+//!         and the error conditions on the recorded real results.
 
-pub fn replay(_ctx: &Ctx, _case: &Value) -> Outcome {
-    panic!("C20: replay not implemented")
+use crate::runner::{Outcome, Summary, Violation};
+use crate::util::{self, arr, s};
+use crate::Ctx;
+use num_complex::Complex64;
+use quil_rs::expression::{Expression, InfixOperator, PrefixOperator};
+use quil_rs::instruction::{
+    DefGateSequence, DefGateSequenceExpansionError, Gate, GateDefinition, GateModifier, GateSpecification,
+    Instruction, Qubit,
+};
+use quil_rs::program::{DefGateSequenceExpansion, ExpansionResult, InstructionIndex, ProgramError, SourceMap};
+use quil_rs::quil::Quil;
+use quil_rs::Program;
+use rand::seq::SliceRandom;
+use rand::Rng;
+use serde_json::{json, Value};
+use std::collections::BTreeSet;
+
+// ------------------------------------------------------------------------------ abstraction function
+
+pub fn expr_to_abs(e: &Expression) -> Value {
+    match e {
+        Expression::Number(c) if c.im == 0.0 && c.re.fract() == 0.0 && c.re.abs() < 1e9 && c.re >= 0.0 => {
+            json!({"t": "num", "v": format!("{}", c.re as i64)})
+        }
+        Expression::Variable(v) => json!({"t": "var", "v": v}),
+        Expression::Infix(i) => {
+            let op = match i.operator {
+                InfixOperator::Plus => "+",
+                InfixOperator::Minus => "-",
+                InfixOperator::Star => "*",
+                InfixOperator::Slash => "/",
+                InfixOperator::Caret => "^",
+            };
+            json!({"t": "inf", "op": op, "l": expr_to_abs(&i.left), "r": expr_to_abs(&i.right)})
+        }
+        Expression::Prefix(p) if p.operator == PrefixOperator::Minus => {
+            json!({"t": "neg", "e": expr_to_abs(&p.expression)})
+        }
+        other => json!({"t": "leaf", "v": other.to_quil_or_debug()}),
+    }
 }
 
-pub fn drive(_ctx: &Ctx) -> Summary {
-    panic!("C20: drive not implemented")
+pub fn expr_from_abs(v: &Value) -> Expression {
+    match s(v, "t").as_str() {
+        "num" => Expression::Number(Complex64::new(s(v, "v").parse::<f64>().expect("num"), 0.0)),
+        "var" => Expression::Variable(s(v, "v")),
+        "inf" => {
+            let (l, r) = (expr_from_abs(&v["l"]), expr_from_abs(&v["r"]));
+            match s(v, "op").as_str() {
+                "+" => l + r,
+                "-" => l - r,
+                "*" => l * r,
+                "/" => l / r,
+                "^" => l ^ r,
+                o => panic!("unknown operator {o}"),
+            }
+        }
+        "neg" => -expr_from_abs(&v["e"]),
+        "leaf" => match s(v, "v").as_str() {
+            "pi" => Expression::PiConstant(),
+            o => panic!("unsupported leaf {o}"),
+        },
+        o => panic!("unknown expression tag {o}"),
+    }
+}
+
+pub fn qubit_to_abs(q: &Qubit) -> Value {
+    match q {
+        Qubit::Fixed(n) => json!({"t": "fixed", "n": n}),
+        Qubit::Variable(s) => json!({"t": "var", "s": s}),
+        Qubit::Placeholder(_) => json!({"t": "ph", "id": 0}),
+    }
+}
+
+pub fn qubit_from_abs(v: &Value) -> Qubit {
+    match s(v, "t").as_str() {
+        "fixed" => Qubit::Fixed(util::u(v, "n")),
+        "var" => Qubit::Variable(s(v, "s")),
+        o => panic!("unsupported qubit tag {o}"),
+    }
+}
+
+fn modifier_name(m: &GateModifier) -> &'static str {
+    match m {
+        GateModifier::Controlled => "CONTROLLED",
+        GateModifier::Dagger => "DAGGER",
+        GateModifier::Forked => "FORKED",
+    }
+}
+
+pub fn gate_to_abs(g: &Gate) -> Value {
+    json!({"k": "Gate", "name": g.name,
+           "params": g.parameters.iter().map(expr_to_abs).collect::<Vec<_>>(),
+           "qubits": g.qubits.iter().map(qubit_to_abs).collect::<Vec<_>>(),
+           "mods": g.modifiers.iter().map(modifier_name).collect::<Vec<_>>()})
+}
+
+pub fn gate_from_abs(v: &Value) -> Gate {
+    let mods = arr(v, "mods")
+        .iter()
+        .map(|m| match m.as_str().unwrap() {
+            "CONTROLLED" => GateModifier::Controlled,
+            "DAGGER" => GateModifier::Dagger,
+            "FORKED" => GateModifier::Forked,
+            o => panic!("unknown modifier {o}"),
+        })
+        .collect();
+    Gate::new(
+        &s(v, "name"),
+        arr(v, "params").iter().map(expr_from_abs).collect(),
+        arr(v, "qubits").iter().map(qubit_from_abs).collect(),
+        mods,
+    )
+    .unwrap_or_else(|e| panic!("alphabet gate rejected by Gate::new: {v}: {e}"))
+}
+
+pub fn instr_to_abs(i: &Instruction) -> Value {
+    match i {
+        Instruction::Gate(g) => gate_to_abs(g),
+        other => json!({"k": "Other", "text": other.to_quil_or_debug()}),
+    }
+}
+
+pub fn instr_from_abs(v: &Value) -> Instruction {
+    match s(v, "k").as_str() {
+        "Gate" => Instruction::Gate(gate_from_abs(v)),
+        "Other" => util::instr(&s(v, "text")),
+        o => panic!("unknown instruction class {o}"),
+    }
+}
+
+pub fn def_from_abs(v: &Value) -> GateDefinition {
+    let params: Vec<String> = arr(v, "params").iter().map(|p| p.as_str().unwrap().to_string()).collect();
+    let spec = match s(v, "kind").as_str() {
+        "seq" => GateSpecification::Sequence(
+            DefGateSequence::try_new(
+                arr(v, "qubits").iter().map(|p| p.as_str().unwrap().to_string()).collect(),
+                arr(v, "gates").iter().map(gate_from_abs).collect(),
+            )
+            .unwrap_or_else(|e| panic!("alphabet definition rejected by DefGateSequence::try_new: {v}: {e}")),
+        ),
+        "other" => {
+            let one = Expression::Number(Complex64::new(1.0, 0.0));
+            let zero = Expression::Number(Complex64::new(0.0, 0.0));
+            GateSpecification::Matrix(vec![vec![one.clone(), zero.clone()], vec![zero, one]])
+        }
+        o => panic!("unknown definition kind {o}"),
+    };
+    GateDefinition::new(s(v, "name"), params, spec)
+        .unwrap_or_else(|e| panic!("alphabet definition rejected by GateDefinition::new: {v}: {e}"))
+}
+
+/// the program of a case: definitions in table order, then the body
+pub fn build_program(defs: &[Value], body: &[Value]) -> Program {
+    let mut p = Program::new();
+    for d in defs {
+        p.add_instruction(Instruction::GateDefinition(def_from_abs(d)));
+    }
+    for i in body {
+        p.add_instruction(instr_from_abs(i));
+    }
+    // the abstraction function must be the identity on the alphabet (otherwise the case is mis-projected)
+    let back: Vec<Value> = p.body_instructions().map(instr_to_abs).collect();
+    if back != body {
+        panic!("abstraction function not invertible on body {body:?} -> {back:?}");
+    }
+    p
+}
+
+pub fn error_kind(e: &ProgramError) -> String {
+    match e {
+        ProgramError::DefGateSequenceExpansionError(x) => match x {
+            DefGateSequenceExpansionError::ParameterCount { .. } => "ParameterCount",
+            DefGateSequenceExpansionError::CyclicSequenceGateDefinition(_) => "Cyclic",
+            DefGateSequenceExpansionError::QubitCount { .. } => "QubitCount",
+            DefGateSequenceExpansionError::NonFixedQubitArgument(_) => "NonFixedQubitArgument",
+            DefGateSequenceExpansionError::GateModifiersUnsupported(_) => "GateModifiersUnsupported",
+            DefGateSequenceExpansionError::InvalidGateSequenceElementQubit(_) => "InvalidGateSequenceElementQubit",
+            DefGateSequenceExpansionError::UndefinedGateSequenceElementQubit(_) => "UndefinedGateSequenceElementQubit",
+        }
+        .to_string(),
+        other => format!("Other({other})"),
+    }
+}
+
+type GsMap<'a> = SourceMap<InstructionIndex, ExpansionResult<DefGateSequenceExpansion<'a>>>;
+
+/// The definition name recorded in a Rewritten entry is only reachable through `Debug` without the
+/// `python` feature (no public accessor for `source_signature`); it is exported for diagnostics
+/// (MODEL-DIVERGENCE level) and "?" when the Debug text has another shape.
+fn signature_name(x: &DefGateSequenceExpansion<'_>) -> String {
+    let d = format!("{x:?}");
+    let key = "source_signature: GateSignature { name: \"";
+    d.find(key)
+        .and_then(|at| {
+            let rest = &d[at + key.len()..];
+            rest.find('"').map(|end| rest[..end].to_string())
+        })
+        .unwrap_or_else(|| "?".to_string())
+}
+
+/// the entries tree of a gate-sequence source map (spec: GateSequence!WFMap)
+pub fn map_to_abs(map: &GsMap<'_>) -> Value {
+    Value::Array(
+        map.entries()
+            .iter()
+            .map(|e| {
+                let t = match e.target_location() {
+                    ExpansionResult::Unmodified(i) => json!({"u": i.0}),
+                    ExpansionResult::Rewritten(x) => json!({"r": {"name": signature_name(x),
+                        "from": x.range().start.0, "to": x.range().end.0,
+                        "nested": map_to_abs(x.nested_expansions())}}),
+                };
+                json!({"s": e.source_location().0, "t": t})
+            })
+            .collect(),
+    )
+}
+
+/// the same tree without the (diagnostic) names
+pub fn strip_names(map: &Value) -> Value {
+    Value::Array(
+        map.as_array()
+            .map(|es| {
+                es.iter()
+                    .map(|e| match e["t"].get("r") {
+                        Some(r) => json!({"s": e["s"], "t": {"r": {"from": r["from"], "to": r["to"], "nested": strip_names(&r["nested"])}}}),
+                        None => e.clone(),
+                    })
+                    .collect()
+            })
+            .unwrap_or_default(),
+    )
+}
+
+/// The real result of one entry point, projected: Ok{out, kept[, map]} or Err{kind}
+#[derive(Clone, Debug, PartialEq)]
+pub enum Real {
+    Ok { out: Vec<Value>, kept: Vec<String>, map: Option<Value>, defs_same: bool, others_same: bool },
+    Err(String),
+}
+
+fn project(before: &Program, after: &Program, map: Option<Value>) -> Real {
+    let out: Vec<Value> = after.body_instructions().map(instr_to_abs).collect();
+    let kept: Vec<String> = after.gate_definitions.keys().cloned().collect();
+    // kept definitions are the original definitions, unchanged
+    let defs_same = after.gate_definitions.iter().all(|(k, v)| before.gate_definitions.get(k) == Some(v));
+    // everything that is not a gate definition or the body is carried over
+    let others_same = after.memory_regions == before.memory_regions
+        && after.calibrations == before.calibrations
+        && after.frames == before.frames
+        && after.waveforms == before.waveforms;
+    Real::Ok { out, kept, map, defs_same, others_same }
+}
+
+pub fn run_plain(program: &Program, filter: &BTreeSet<String>) -> Real {
+    match program.clone().expand_defgate_sequences(|n| filter.contains(n)) {
+        Ok(p) => project(program, &p, None),
+        Err(e) => Real::Err(error_kind(&e)),
+    }
+}
+
+pub fn run_mapped(program: &Program, filter: &BTreeSet<String>) -> Real {
+    match program.expand_defgate_sequences_with_source_map(|n| filter.contains(n)) {
+        Ok((p, m)) => {
+            let map = map_to_abs(&m);
+            project(program, &p, Some(map))
+        }
+        Err(e) => Real::Err(error_kind(&e)),
+    }
+}
+
+pub fn filter_of(case: &Value) -> BTreeSet<String> {
+    arr(case, "filter").iter().map(|n| n.as_str().unwrap().to_string()).collect()
+}
+
+pub fn real_json(r: &Real) -> Value {
+    match r {
+        Real::Ok { out, kept, map, .. } => {
+            let mut o = json!({"out": out, "kept": kept});
+            if let Some(m) = map {
+                o["map"] = m.clone();
+            }
+            json!({ "ok": o })
+        }
+        Real::Err(k) => json!({ "err": k }),
+    }
+}
+
+/// DESIGN.md §10: a case is non-trivial when it has >= 1 selected invocation, or is an error case.
+pub fn nontrivial(defs: &[Value], filter: &BTreeSet<String>, body: &[Value], real: &Real) -> bool {
+    if matches!(real, Real::Err(_)) {
+        return true;
+    }
+    body.iter().any(|i| {
+        i["k"] == "Gate"
+            && filter.contains(i["name"].as_str().unwrap())
+            && defs.iter().any(|d| d["name"] == i["name"] && d["kind"] == "seq")
+    })
+}
+
+// ------------------------------------------------------------- the property itself, for classification
+//
+// Used only when the real result differs from the model's expectation, to decide between VIOLATION and
+// mere divergence (BUILDING.md §1).  An independent, direct reading of the statement on abstract values.
+
+fn subst_expr(e: &Value, env: &[(String, Value)]) -> Value {
+    match e["t"].as_str().unwrap() {
+        "var" => env.iter().rev().find(|(k, _)| k == e["v"].as_str().unwrap()).map(|(_, v)| v.clone()).unwrap_or(e.clone()),
+        "inf" => json!({"t": "inf", "op": e["op"], "l": subst_expr(&e["l"], env), "r": subst_expr(&e["r"], env)}),
+        "neg" => json!({"t": "neg", "e": subst_expr(&e["e"], env)}),
+        _ => e.clone(),
+    }
+}
+
+fn find_def<'a>(defs: &'a [Value], name: &str) -> Option<&'a Value> {
+    defs.iter().find(|d| d["name"] == name && d["kind"] == "seq")
+}
+
+/// Ok(expanded) or Err(set of conditions at the first offending invocation)
+pub fn oracle_expand(
+    defs: &[Value],
+    filter: &BTreeSet<String>,
+    instrs: &[Value],
+    visiting: &mut Vec<String>,
+) -> Result<Vec<Value>, BTreeSet<String>> {
+    let mut out = vec![];
+    for g in instrs {
+        let def = if g["k"] == "Gate" && filter.contains(g["name"].as_str().unwrap()) {
+            find_def(defs, g["name"].as_str().unwrap())
+        } else {
+            None
+        };
+        let Some(d) = def else {
+            out.push(g.clone());
+            continue;
+        };
+        let name = s(g, "name");
+        let (dp, dq) = (arr(d, "params"), arr(d, "qubits"));
+        let (gp, gq) = (arr(g, "params"), arr(g, "qubits"));
+        let mut conds = BTreeSet::new();
+        if dp.len() != gp.len() {
+            conds.insert("ParameterCount".to_string());
+        }
+        if !arr(g, "mods").is_empty() {
+            conds.insert("GateModifiersUnsupported".to_string());
+        }
+        if visiting.contains(&name) {
+            conds.insert("Cyclic".to_string());
+        }
+        if dq.len() != gq.len() {
+            conds.insert("QubitCount".to_string());
+        }
+        if gq.iter().any(|q| q["t"] != "fixed") {
+            conds.insert("NonFixedQubitArgument".to_string());
+        }
+        if !conds.is_empty() {
+            return Err(conds);
+        }
+        let penv: Vec<(String, Value)> = dp.iter().map(|p| p.as_str().unwrap().to_string()).zip(gp.iter().cloned()).collect();
+        let qenv: Vec<(String, Value)> = dq.iter().map(|p| p.as_str().unwrap().to_string()).zip(gq.iter().cloned()).collect();
+        let inner: Vec<Value> = arr(d, "gates")
+            .iter()
+            .map(|e| {
+                let ps: Vec<Value> = arr(e, "params").iter().map(|p| subst_expr(p, &penv)).collect();
+                let qs: Vec<Value> = arr(e, "qubits")
+                    .iter()
+                    .map(|q| qenv.iter().rev().find(|(k, _)| k == q["s"].as_str().unwrap()).map(|(_, v)| v.clone()).unwrap_or(q.clone()))
+                    .collect();
+                json!({"k": "Gate", "name": e["name"], "params": ps, "qubits": qs, "mods": e["mods"]})
+            })
+            .collect();
+        visiting.push(name);
+        let r = oracle_expand(defs, filter, &inner, visiting);
+        visiting.pop();
+        out.extend(r?);
+    }
+    Ok(out)
+}
+
+pub fn oracle_keep(defs: &[Value], filter: &BTreeSet<String>) -> BTreeSet<String> {
+    let seq: Vec<&Value> = defs.iter().filter(|d| d["kind"] == "seq").collect();
+    let mut keep: BTreeSet<String> =
+        defs.iter().filter(|d| d["kind"] != "seq" || !filter.contains(d["name"].as_str().unwrap())).map(|d| s(d, "name")).collect();
+    loop {
+        let mut grew = false;
+        for d in &seq {
+            if keep.contains(d["name"].as_str().unwrap()) {
+                for e in arr(d, "gates") {
+                    let n = e["name"].as_str().unwrap();
+                    if seq.iter().any(|x| x["name"] == n) && keep.insert(n.to_string()) {
+                        grew = true;
+                    }
+                }
+            }
+        }
+        if !grew {
+            return keep;
+        }
+    }
+}
+
+/// failures of the C20 statement on a real result (empty = the property holds for this case)
+pub fn property_failures(defs: &[Value], filter: &BTreeSet<String>, body: &[Value], real: &Real) -> Vec<(String, Value, Value)> {
+    let mut fails = vec![];
+    let want = oracle_expand(defs, filter, body, &mut vec![]);
+    match (real, &want) {
+        (Real::Ok { out, kept, defs_same, .. }, Ok(w)) => {
+            if out != w {
+                fails.push(("expanded body".to_string(), json!(w), json!(out)));
+            }
+            let wk = oracle_keep(defs, filter);
+            let gk: BTreeSet<String> = kept.iter().cloned().collect();
+            if gk != wk || kept.len() != gk.len() {
+                fails.push(("kept definitions".to_string(), json!(wk), json!(kept)));
+            }
+            if !defs_same {
+                fails.push(("kept definitions changed".to_string(), json!("unchanged definitions"), json!(kept)));
+            }
+        }
+        (Real::Ok { out, .. }, Err(c)) => fails.push(("error reported".to_string(), json!({ "err": c }), json!({ "ok": out }))),
+        (Real::Err(k), Ok(w)) => fails.push(("error reported".to_string(), json!({ "ok": w }), json!({ "err": k }))),
+        (Real::Err(k), Err(c)) => {
+            if !c.contains(k) {
+                fails.push(("error category".to_string(), json!(c), json!(k)));
+            }
+        }
+    }
+    fails
+}
+
+// ------------------------------------------------------------------------------------------- replay
+
+pub fn case_parts(case: &Value) -> (Vec<Value>, BTreeSet<String>, Vec<Value>) {
+    // a violation replay file from trace validation carries a recorded history instead of a TLC case
+    let c = if let Some(h) = case.get("history") { &h[0] } else { case };
+    (arr(c, "defs").clone(), filter_of(c), arr(c, "body").clone())
+}
+
+/// the recorded event `ev` of a trace-validation replay file, if this is one
+pub fn recorded_event<'a>(case: &'a Value, ev: &str) -> Option<&'a Value> {
+    case.get("history").and_then(|h| h.as_array()).and_then(|h| h.iter().find(|e| e["ev"] == ev))
+}
+
+pub fn replay(_ctx: &Ctx, case: &Value) -> Outcome {
+    let (defs, filter, body) = case_parts(case);
+    let program = build_program(&defs, &body);
+    let real = run_plain(&program, &filter);
+    let mut o = Outcome::ok(nontrivial(&defs, &filter, &body, &real));
+    // expected observables of the model (absent when replaying a recorded history)
+    let want = case.get("res");
+    let same = match (want, &real) {
+        (Some(w), Real::Ok { out, kept, defs_same, others_same, .. }) => {
+            w.get("ok").map(|k| k["out"] == json!(out) && k["kept"] == json!(kept)).unwrap_or(false) && *defs_same && *others_same
+        }
+        (Some(w), Real::Err(k)) => w.get("err").map(|e| e == k).unwrap_or(false),
+        (None, _) => false,
+    };
+    if !same {
+        let fails = property_failures(&defs, &filter, &body, &real);
+        if let (true, Some(rec)) = (fails.is_empty(), recorded_event(case, "result")) {
+            // replay of a history that TLC's trace validation rejected: the verdict was TLC's; here we only
+            // establish whether the real code still produces the rejected result
+            if rec["res"] == real_json(&real) {
+                o.violate(Violation::new("result rejected by trace validation (reproduced)", Value::Null, real_json(&real))
+                    .note("the real code returns the same result that spec/trace/GateSequenceTrace.tla rejected"));
+            }
+        }
+        if fails.is_empty() {
+            if let Some(w) = want {
+                o.diverge(format!("result differs from the model but satisfies the property: model {w} real {}", real_json(&real)));
+            }
+        } else {
+            let (obs, exp, act) = fails[0].clone();
+            o.violate(
+                Violation::new(&obs, exp, act)
+                    .note(fails.iter().map(|f| f.0.clone()).collect::<Vec<_>>().join("; ")),
+            );
+        }
+    }
+    match &real {
+        Real::Ok { .. } => o.count("ok"),
+        Real::Err(k) => o.count(&format!("err_{k}")),
+    }
+    o
+}
+
+// ------------------------------------------------------------------------------------------- drive
+
+const SEQ_NAMES: &[&str] = &["SA", "SB", "SC", "SD", "SE"];
+const PARAM_NAMES: &[&str] = &["t", "s"];
+const FORMALS: &[&str] = &["a", "b", "c"];
+
+fn rand_expr(r: &mut impl Rng, params: &[String], depth: u32) -> Value {
+    let leaf = |r: &mut dyn rand::RngCore| -> Value {
+        if !params.is_empty() && r.gen_bool(0.6) {
+            json!({"t": "var", "v": params[r.gen_range(0..params.len())]})
+        } else if r.gen_bool(0.15) {
+            json!({"t": "leaf", "v": "pi"})
+        } else {
+            json!({"t": "num", "v": format!("{}", r.gen_range(0..9))})
+        }
+    };
+    if depth == 0 || r.gen_bool(0.5) {
+        return leaf(r);
+    }
+    match r.gen_range(0..5) {
+        0 => json!({"t": "neg", "e": rand_expr(r, params, depth - 1)}),
+        k => {
+            let op = ["+", "-", "*", "/"][k - 1];
+            json!({"t": "inf", "op": op, "l": rand_expr(r, params, depth - 1), "r": rand_expr(r, params, depth - 1)})
+        }
+    }
+}
+
+/// one random case: (defs, filter, body)
+pub fn random_case(r: &mut impl Rng) -> (Vec<Value>, BTreeSet<String>, Vec<Value>) {
+    let nseq = r.gen_range(1..=SEQ_NAMES.len());
+    // signatures first, so that elements can refer to later definitions with the right or a wrong arity
+    let sigs: Vec<(String, Vec<String>, Vec<String>)> = (0..nseq)
+        .map(|n| {
+            let np = r.gen_range(0..=2);
+            let nq = r.gen_range(1..=3);
+            (
+                SEQ_NAMES[n].to_string(),
+                PARAM_NAMES[..np].iter().map(|x| x.to_string()).collect(),
+                FORMALS[..nq].iter().map(|x| x.to_string()).collect(),
+            )
+        })
+        .collect();
+    let anomaly_rate = [0.0, 0.0, 0.03, 0.15][r.gen_range(0..4)];
+    let mut defs = vec![];
+    for (at, (name, params, formals)) in sigs.iter().enumerate() {
+        let ng = r.gen_range(1..=3);
+        let mut gates = vec![];
+        for _ in 0..ng {
+            let refer = r.gen_bool(if at + 1 < sigs.len() { 0.55 } else { 0.1 });
+            if refer {
+                // mostly forward references (deep acyclic nesting), sometimes any (cycles of every length)
+                let target = if at + 1 < sigs.len() && r.gen_bool(0.92) { r.gen_range(at + 1..sigs.len()) } else { r.gen_range(0..sigs.len()) };
+                let (tn, tp, tq) = &sigs[target];
+                let np = if r.gen_bool(anomaly_rate) { r.gen_range(0..=2) } else { tp.len() };
+                let nq = if r.gen_bool(anomaly_rate) { r.gen_range(1..=3) } else { tq.len() };
+                let mods = if r.gen_bool(anomaly_rate) { json!(["DAGGER"]) } else { json!([]) };
+                gates.push(json!({"k": "Gate", "name": tn,
+                    "params": (0..np).map(|_| rand_expr(r, params, 2)).collect::<Vec<_>>(),
+                    "qubits": (0..nq).map(|_| json!({"t": "var", "s": formals[r.gen_range(0..formals.len())]})).collect::<Vec<_>>(),
+                    "mods": mods}));
+            } else {
+                let (gn, np, nq) = *[("RZ", 1, 1), ("RX", 1, 1), ("CNOT", 0, 2), ("CPHASE", 1, 2), ("MG", 0, 1), ("UG", 2, 1)].choose(r).unwrap();
+                let mods = if r.gen_bool(0.15) { json!(["DAGGER"]) } else { json!([]) };
+                gates.push(json!({"k": "Gate", "name": gn,
+                    "params": (0..np).map(|_| rand_expr(r, params, 2)).collect::<Vec<_>>(),
+                    "qubits": (0..nq).map(|_| json!({"t": "var", "s": formals[r.gen_range(0..formals.len())]})).collect::<Vec<_>>(),
+                    "mods": mods}));
+            }
+        }
+        defs.push(json!({"name": name, "kind": "seq", "params": params, "qubits": formals, "gates": gates}));
+    }
+    if r.gen_bool(0.6) {
+        let at = r.gen_range(0..=defs.len());
+        defs.insert(at, json!({"name": "MG", "kind": "other", "params": [], "qubits": [], "gates": []}));
+    }
+    let mut filter = BTreeSet::new();
+    let all = r.gen_bool(0.4);
+    for n in SEQ_NAMES.iter().chain(["MG", "UG", "RZ"].iter()) {
+        if all || r.gen_bool(0.7) {
+            filter.insert(n.to_string());
+        }
+    }
+    let nb = r.gen_range(0..=6);
+    let mut body = vec![];
+    for _ in 0..nb {
+        match r.gen_range(0..10) {
+            0 => {
+                let text = *["NOP", "MEASURE 0 ro[0]", "RESET 1", "HALT", "FENCE 0 1"].choose(r).unwrap();
+                body.push(json!({"k": "Other", "text": text}));
+            }
+            1 | 2 => {
+                let (gn, np, nq) = *[("X", 0, 1), ("RZ", 1, 1), ("CNOT", 0, 2), ("MG", 0, 1), ("UG", 1, 2)].choose(r).unwrap();
+                let mods = if r.gen_bool(0.2) { json!(["DAGGER"]) } else { json!([]) };
+                body.push(json!({"k": "Gate", "name": gn,
+                    "params": (0..np).map(|_| rand_expr(r, &[], 1)).collect::<Vec<_>>(),
+                    "qubits": (0..nq).map(|_| json!({"t": "fixed", "n": r.gen_range(0..4)})).collect::<Vec<_>>(),
+                    "mods": mods}));
+            }
+            _ => {
+                let (tn, tp, tq) = &sigs[r.gen_range(0..sigs.len())];
+                let np = if r.gen_bool(anomaly_rate) { r.gen_range(0..=2) } else { tp.len() };
+                let nq = if r.gen_bool(anomaly_rate) { r.gen_range(1..=3) } else { tq.len() };
+                let mods = if r.gen_bool(anomaly_rate) { json!(["CONTROLLED"]) } else { json!([]) };
+                let var_q = r.gen_bool(anomaly_rate);
+                body.push(json!({"k": "Gate", "name": tn,
+                    "params": (0..np).map(|_| rand_expr(r, &[], 1)).collect::<Vec<_>>(),
+                    "qubits": (0..nq).map(|k| if var_q && k == 0 { json!({"t": "var", "s": "q"}) } else { json!({"t": "fixed", "n": r.gen_range(0..4)}) }).collect::<Vec<_>>(),
+                    "mods": mods}));
+            }
+        }
+    }
+    (defs, filter, body)
+}
+
+pub fn filter_json(f: &BTreeSet<String>) -> Value {
+    json!(f.iter().collect::<Vec<_>>())
+}
+
+pub fn drive(ctx: &Ctx) -> Summary {
+    let n = ctx.arg_u64("n", 200);
+    let path = ctx.arg_str("out").expect("--out");
+    let mut out = std::io::BufWriter::new(std::fs::File::create(path).expect("create trace"));
+    let mut rng = util::rng(ctx.seed, 20);
+    let mut sum = Summary::default();
+    for _ in 0..n {
+        let (defs, filter, body) = random_case(&mut rng);
+        let program = build_program(&defs, &body);
+        let real = run_plain(&program, &filter);
+        util::emit(&mut out, &json!({"ev": "reset", "defs": defs, "filter": filter_json(&filter), "body": body}));
+        // verdict event: only what the statement names (body, kept set, error reported + category)
+        util::emit(&mut out, &json!({"ev": "result", "res": real_json(&real)}));
+        // beyond the statement (exact category, key order): looked at by the strict configuration only
+        util::emit(&mut out, &json!({"ev": "info", "res": real_json(&real)}));
+        let mut o = Outcome::ok(nontrivial(&defs, &filter, &body, &real));
+        o.count_n("events", 3);
+        match &real {
+            Real::Ok { .. } => o.count("ok"),
+            Real::Err(k) => o.count(&format!("err_{k}")),
+        }
+        sum.absorb(&json!({"defs": defs, "filter": filter_json(&filter), "body": body}), &o, true);
+    }
+    sum
 }
